@@ -19,6 +19,8 @@ DISPATCH = {
     "C05": ("harness.herdsupply", "run"),
     "C06": ("harness.herd", "run"),
     "C07": ("harness.herd", "run"),
+    "C08": ("harness.supply", "run"),
+    "C09": ("harness.supply", "run"),
     "C10": ("harness.units", "run"),
     "C11": ("harness.foodalg", "run"),
     "C18": ("harness.handoff", "run"),
